@@ -128,3 +128,146 @@ def component_cases(prob, max_inputs=5, with_jac=True):
                         bad = ("d " + bj[0], bj[1])
                 out.append((cls, what, "deviates" if bad else "ok", bad))
     return out
+
+
+# ---- Problem.setup() called again (OASLifecycle.Resetup at system granularity) ----------------------------------------
+_BASE_GOPTS = set(om.Group().options._dict)
+
+
+def _clone_sys(sysm, deep=False):
+    import copy
+
+    cls = type(sysm)
+    base = _BASE_GOPTS if isinstance(sysm, om.Group) else _BASE_OPTS
+    kw = {}
+    for k in cls().options._dict:
+        if k in base:
+            continue
+        try:
+            kw[k] = sysm.options[k]
+        except RuntimeError:
+            pass
+    return cls(**(copy.deepcopy(kw) if deep else kw))
+
+
+def oas_systems(prob):
+    """Every OpenAeroStruct system (component or group) below the model, outermost first."""
+    out = []
+    for s in prob.model.system_iter(recurse=True, include_self=False):
+        if type(s).__module__.startswith("openaerostruct"):
+            out.append(s)
+    return out
+
+
+def _ext_inputs(p):
+    """Absolute names of the clone's inputs that nothing inside it feeds."""
+    conns = p.model._conn_global_abs_in2out
+    return [a for a in p.model._var_allprocs_abs2meta["input"] if conns.get(a, "").startswith("_auto_ivc.")]
+
+
+def _feed(p, live_prob, live_path, ext, keep=()):
+    for a in ext:
+        if a not in keep:
+            p.set_val(a, np.array(live_prob.get_val(live_path + a[1:])))  # clone is called "c": "c.x" -> "<live path>.x"
+
+
+def _defaults(p, ext):
+    return {a: np.array(p.get_val(a), dtype=float).copy() for a in ext}
+
+
+def _all_outs(p):
+    m = p.model.c
+    return {a: np.array(p.get_val(a), dtype=float).copy() for a in p.model._var_allprocs_abs2meta["output"] if a.startswith("c.")} if isinstance(m, om.Group) else {n: np.array(m._outputs[n], dtype=float).copy() for n in m._var_rel_names["output"]}
+
+
+def _perturb_options(sysm):
+    """Scale, in place, every control-point array of the system's surface dictionaries (what a sweep script edits between
+    two set-ups).  Returns the number of arrays changed."""
+    n = 0
+    dicts = []
+    for k in ("surface", "surfaces"):
+        try:
+            v = sysm.options[k]
+        except (KeyError, RuntimeError):
+            continue
+        dicts += [v] if isinstance(v, dict) else list(v)
+    for d in dicts:
+        for k, v in d.items():
+            if k.endswith("_cp") and isinstance(v, np.ndarray) and v.dtype.kind == "f" and np.any(v != 0):
+                v *= 1.07
+                n += 1
+    return n
+
+
+def resetup_cases(prob):
+    """For every OAS system of a model that has been run: (1) alone in a Problem, run, Problem.setup() again on the same
+    instance, run again - same outputs; (2) control points of its surface dictionaries edited in place, setup() again, run -
+    same outputs as a new instance built from the edited dictionaries.  A list that setup() appends to, a default cached at
+    the first set-up, survive in the instance and show up here whatever the system."""
+    out = []
+    seen = set()
+    for sysm in oas_systems(prob):
+        cls = type(sysm).__name__
+        sig = (cls, tuple(sorted(sysm._var_allprocs_abs2meta["input"])) if False else len(sysm._var_allprocs_abs2meta["input"]), len(sysm._var_allprocs_abs2meta["output"]))
+        if sig in seen:
+            continue
+        seen.add(sig)
+        with warnings.catch_warnings(), np.errstate(all="ignore"):
+            warnings.simplefilter("ignore")
+            try:
+                p = om.Problem(reports=False)
+                p.model.add_subsystem("c", _clone_sys(sysm, deep=True))
+                p.setup()
+                p.final_setup()
+                ext = _ext_inputs(p)
+                d1 = _defaults(p, ext)
+                _feed(p, prob, sysm.pathname, ext)
+                p.run_model()
+                o1 = _all_outs(p)
+            except Exception as e:
+                out.append((cls, "resetup", "skipped", repr(e)[:100]))
+                continue
+            try:
+                p.setup()
+                p.final_setup()
+                _feed(p, prob, sysm.pathname, ext)
+                p.run_model()
+                o2 = _all_outs(p)
+                bad = _same(o2, o1) if set(o2) == set(o1) else ("variables", float("inf"))
+            except Exception as e:
+                out.append((cls, "resetup", "exception_only_after_history", repr(e)[:160]))
+                continue
+            out.append((cls, "resetup", "deviates" if bad else "ok", bad))
+            try:
+                if _perturb_options(p.model.c) == 0:
+                    continue
+                q = om.Problem(reports=False)
+                q.model.add_subsystem("c", _clone_sys(p.model.c, deep=True))
+                q.setup()
+                q.final_setup()
+                extb = _ext_inputs(q)
+                db = _defaults(q, extb)
+                # inputs whose default comes from the (edited) options stay at their defaults; the others get the model's values
+                keep = {a for a in extb if a not in d1 or d1[a].shape != db[a].shape or not np.array_equal(d1[a], db[a])}
+                _feed(q, prob, sysm.pathname, extb, keep)
+                q.run_model()
+                ob = _all_outs(q)
+            except Exception as e:
+                out.append((cls, "resetup_edited_options", "skipped", repr(e)[:100]))
+                continue
+            try:
+                p.setup()
+                p.final_setup()
+                ext3 = _ext_inputs(p)
+                d3 = _defaults(p, ext3)
+                _feed(p, prob, sysm.pathname, ext3, keep)
+                p.run_model()
+                o3 = _all_outs(p)
+            except Exception as e:
+                out.append((cls, "resetup_edited_options", "exception_only_after_history", repr(e)[:160]))
+                continue
+            bad = (_same(d3, db) if set(d3) == set(db) else ("input_defaults", float("inf"))) or (_same(o3, ob) if set(o3) == set(ob) else ("variables", float("inf")))
+            if bad and bad[0] in db:
+                bad = ("default of " + bad[0], bad[1])
+            out.append((cls, "resetup_edited_options", "deviates" if bad else "ok", bad))
+    return out
